@@ -107,7 +107,7 @@ class Val:
 
 class Universe:
 
-    def __init__(self, bp, consistent_regs=True):
+    def __init__(self, bp, consistent_regs=True, reg_classes=None):
         from zope.interface import Interface
         from zope.interface import classImplements
         from zope.interface import classImplementsOnly
@@ -172,6 +172,8 @@ class Universe:
                 self.adjusted += 1
             cls = AdapterRegistry if flavour == 'plain' \
                 else VerifyingAdapterRegistry
+            if reg_classes:
+                cls = reg_classes[flavour]
             self.regs.append(cls(tuple(self.regs[b] for b in bases)))
             self.flavours.append(flavour)
         self._implementedBy = implementedBy
